@@ -45,6 +45,11 @@ static double dist(const Spec& s, const GroupT& A, const GroupT& B, bool& ok) {
   const MatL MA = ref_mat(s, toVL(A.coeffs())), MB = ref_mat(s, toVL(B.coeffs()));
   VecL d;
   ok = ref_log(s, MatL(ref_inv(s, MA) * MB), d);
+  if (!ok) {
+    // long double could not certify the logarithm (large coordinates): redo the whole chain in 50 digits
+    const MatL MA2 = ref_mat(s, toVL(A.coeffs()), P_MP), MB2 = ref_mat(s, toVL(B.coeffs()), P_MP);
+    ok = ref_log(s, MatL(ref_inv(s, MA2, P_MP) * MB2), d, P_MP);
+  }
   if (!ok) return INFINITY;
   const LD n = d.norm();
   return (n == n) ? (double)n : INFINITY;
@@ -88,7 +93,8 @@ vf::Outcome run_case(const vf::Case& c, const vf::RunCtx& ctx) {
     if (mode == 0 || n == 1) {
       // identical points (or a single one): the average is that point
       bool ok; const double d0 = dist(s, pts[0], m, ok);
-      k.expect("identical points:" + rn, d0, kValTol * Smax * 4, rn + ": average of identical points is not that point");
+      if (ok) k.expect("identical points:" + rn, d0, kValTol * Smax * 4, rn + ": average of identical points is not that point");
+      else k.label("distance oracle inconclusive");
       k.label(n == 1 ? "single point" : "identical points");
     }
     if (rt < 3 && n >= 1) {
